@@ -2790,3 +2790,37 @@ def minimize(case, still_fails, budget=400):
                 progress = True
                 break
     return cur
+
+
+MAX_EST_ROWS = 3000
+
+
+def est_rows(case):
+    """static upper estimate of the largest intermediate row count of a pipeline: a join multiplies (keys come from small
+    pools, so a keyed join is taken as a third of the product), a concat adds.  The executable Lean model (exact
+    rationals, list-based frames, quadratic windows) needs minutes on a chain of many-to-many joins of 20-row tables;
+    suites that run the model skip pipelines beyond MAX_EST_ROWS and count them (size has nothing to do with any property)."""
+    defs, worst = {}, [0]
+
+    def go(p):
+        if "ref" in p and "steps" not in p and "table" not in p and "src" not in p:
+            return defs.get(p["ref"], 1)
+        n = len(case["tables"][p["table"]]["rows"]) if "table" in p else go(p["src"])
+        for st in p.get("steps", []):
+            if st["call"] == "natural_join":
+                m = go(st["b"])
+                keyed = bool(st.get("on")) and str(st["jointype"]).lower() != "cross"
+                n = max(n, m, (n * m) // (3 if keyed else 1))
+            elif st["call"] == "concat_rows":
+                n = n + go(st["b"])
+            worst[0] = max(worst[0], n)
+        if "def" in p:
+            defs[p["def"]] = n
+        worst[0] = max(worst[0], n)
+        return n
+
+    try:
+        go(case["pipe"])
+    except Exception:
+        return 0
+    return worst[0]
